@@ -194,15 +194,28 @@ def graph_cases(res, drv, rng, graphs):
     lines, items = [], []
     for g in graphs:
         n = g.number_of_nodes()
-        inp = {"graph_edges": sorted(map(tuple, map(sorted, g.edges()))), "n": n}
+        inp = {"graph_edges": sorted(map(tuple, map(sorted, g.edges()))), "n": n, "node_order": list(g.nodes())}
         res.evaluations += 1
         try:
             ct = rc.get_clifford_tableau_from_graph(g)
         except Exception as e:  # noqa: BLE001
             res.violation(f"get_clifford_tableau_from_graph:raises:{err_class(e)}", "raised on a graph", input=inp)
             continue
-        adj = nx.to_numpy_array(g, nodelist=sorted(g.nodes())).astype(int)
+        # convention of the whole library: qubit k is the k-th node of the graph object (networkx insertion order)
+        adj = nx.to_numpy_array(g, nodelist=list(g.nodes())).astype(int)
         want = tu.span_canon(np.eye(n, dtype=int), adj, np.zeros(n, dtype=int))
+        rho_other = None
+        if n <= 5:
+            # … and graph_to_density, which builds the state independently (CZ per edge), must describe the same state
+            from graphiq.backends.state_rep_conversion import graph_to_density
+
+            try:
+                rho_other = np.asarray(graph_to_density(g))
+                if tu.is_valid(ct) and not np.allclose(tu.dense_rho(ct), rho_other, atol=1e-8):
+                    res.violation("get_clifford_tableau_from_graph:disagrees-with-graph_to_density",
+                                  "the Clifford tableau of a graph and graph_to_density of the same graph object describe different states", input=inp)
+            except Exception:  # noqa: BLE001
+                pass
         if not (tu.is_binary(ct) and tu.is_valid(ct)):
             res.violation("get_clifford_tableau_from_graph:invalid", "invalid tableau for a graph", input=inp, impl=tu.tab_args(ct))
         elif tu.stab_canon(ct) != want:
@@ -271,6 +284,17 @@ def run(ctx, budget=1.0):
     if not ctx.quick:
         graphs += [nx.gnp_random_graph(6, rng.random(), seed=rng.getrandbits(30)) for _ in range(300)]
     graphs += [nx.gnp_random_graph(rng.randrange(5, 12), rng.random(), seed=rng.getrandbits(30)) for _ in range(40)]
+    # the same graphs as objects whose node insertion order differs from the sorted order of the labels
+    scr = []
+    for g in graphs[:: (3 if ctx.quick else 1)]:
+        n = g.number_of_nodes()
+        if n >= 3 and g.number_of_edges() > 0:
+            order = rng.sample(range(n), n)
+            h = nx.Graph()
+            h.add_nodes_from(order)
+            h.add_edges_from(g.edges())
+            scr.append(h)
+    graphs += scr
     graph_cases(res, drv, rng, graphs)
     malformed(res, drv, rng, 40)
     res.exhaustive = not ctx.quick
